@@ -147,7 +147,12 @@ func (t *topo) validate() string {
 			}
 		}
 	}
+	connList := make([]string, 0, len(conns))
 	for c := range conns {
+		connList = append(connList, c)
+	}
+	sort.Strings(connList)
+	for _, c := range connList {
 		for _, p := range t.Pipes {
 			if contains(p.Exp, c) {
 				ok := false
